@@ -29,6 +29,7 @@ class SlicesOverlap:
 @contract("rig/place_and_route/allocate/utils.py::align")
 class Align:
     properties = ("C05",)
+    sample_wide = True
     params = dict(value=TInt(), alignment=TInt(1, None))
 
     def ensures_least_multiple_not_below(value, alignment, result):
